@@ -106,6 +106,18 @@ def compute_case(case):
         refuses("absolute-path", (ValueError,), ti.checksums.add, full, case["alg"], None, tmp)
         refuses("absolute-path", (ValueError,), ti.checksums.add, "/" + noisy, case["alg"], "abc")
         check({k: list(v) for k, v in ti.checksums.checksums.items()} == before, "refused-add-changed-table", "table changed by a refused add")
+        # an add that cannot compute its digest (no such file, no root directory, unknown algorithm) fails and records nothing:
+        # neither a new entry nor a changed one (a path never carries a checksum that was not given or computed for it)
+        for label, args in (("missing-file", (clean + ".missing", case["alg"], None, tmp)), ("missing-file-over-existing-entry", (noisy, case["alg"], None, tmp + "-elsewhere")),
+                            ("no-root-directory", (clean + ".noroot", case["alg"], None, None)), ("unknown-algorithm", (noisy, "no-such-algorithm", None, tmp))):
+            try:
+                ti.checksums.add(*args)
+            except Exception:  # noqa
+                pass
+            else:
+                raise Violation("add-without-digest-succeeded", "add%r returned normally although no digest can be computed (%s)" % (args[:3], label))
+            now = {k: list(v) for k, v in ti.checksums.checksums.items()}
+            check(now == before, "failed-add-changed-table", lambda: "a failing add (%s) changed the table: %r -> %r" % (label, before, now))
     finally:
         shutil.rmtree(tmp, ignore_errors=True)
     return {"nontrivial": len(data) >= MIB or noisy != clean, "labels": [case["alg"]] + ([">=1MiB"] if len(data) >= MIB else []) + (["noisy-path"] if noisy != clean else [])}
